@@ -2,7 +2,7 @@
 # runs every check once (quick tier by default) and prints a one-line summary per property
 T=${1:-quick}
 cd "$(dirname "$0")"
-for c in C01 C02 C03 C04 C05 C06 C07 C08 C09 C10 C11 C12 C13 C14 C15 C16 C17 C18; do
+for c in C01 C02 C03 C04 C05 C06 C07 C08 C09 C10 C11 C12 C13 C14 C15 C16 C17 C18 C19; do
   out=$(./check $c --tier $T 2>&1); code=$?
   echo "$c exit=$code $(echo "$out" | tail -1)"
 done
